@@ -313,6 +313,10 @@ def _value(rng, mn, mx, allow_zero=True):
         return rng.choice([0, 0.0])
     if k < 0.35:
         return mx
+    if k < 0.40:
+        # tiny but positive: a non-empty well all the same
+        v = rng.choice([1e-9, 1e-12, 5e-324, 2.5e-8, 1e-6])
+        return v if v <= mx else mx
     if k < 0.6:
         v = rng.randint(1, max(1, int(mx)))
         return v if v <= mx else mx
